@@ -314,6 +314,13 @@ func (x *Exec) specForm(name string, e *ast.CallExpr, st *State, sp *SpecCtx) (V
 		if v.IsNil {
 			return bv(True)
 		}
+		if v.Dom != nil {
+			return bv(x.mapNil(v))
+		}
+		if v.Ptr != nil && !v.Ptr.Opaque {
+			// a resolvable pointer (entry-state pointers are modelled as allocated; see DESIGN "pointers")
+			return bv(False)
+		}
 		x.errorf("isnil on non-reference")
 		return Value{Term: False}, true
 	case "m_exp", "m_sqrt", "m_pow", "m_sin", "m_log", "m_cos":
